@@ -200,7 +200,7 @@ func zzH02_call2() {
 	if zzParam("fullpool2", 0, 1) == 1 {
 		// every kind except the symbolic float (each float comparison is a floating-point
 		// query of seconds; floats are covered with one argument in zzH02_call1)
-		nf := []int{0, 1, 2, 3, 4, 6, 7, 8, 9, 10, 11, 12, 13, 14, 15}
+		nf := []int{0, 2, 3, 4, 6, 8, 9, 12, 13, 14} // 10 of the 16 kinds (100 pairs per callable)
 		k0, k1 = nf[zzChoice("k0", len(nf))], nf[zzChoice("k1", len(nf))]
 	} else {
 		k0, k1 = reduced[zzChoice("k0", len(reduced))], reduced[zzChoice("k1", len(reduced))]
